@@ -796,7 +796,10 @@ def jobs(tier):
     # parser configurations
     cfgs = [{"assumed_time_zone": (5, 30)}, {"assumed_time_zone": (-3, -30)}, {"default_to_unknown_time_zone": True},
             {"assumed_time_zone": (0, 0), "num_expanded_year_digits": 3}, {"assumed_time_zone": (0, 0), "allow_only_basic": True},
-            {"assumed_time_zone": (0, 0), "allow_truncated": True}]
+            {"assumed_time_zone": (0, 0), "allow_truncated": True},
+            # both zone options at once: the assumed offset takes precedence (the documented order)
+            {"assumed_time_zone": (5, 30), "default_to_unknown_time_zone": True},
+            {"assumed_time_zone": (-3, -30), "default_to_unknown_time_zone": True, "allow_truncated": True}]
     for cfg in cfgs:
         for d, tx, z in (("CCYYMMDD", "hhmmss", ""), ("+XCCYYDDD", "hhmm", "+hhmm"), ("CCYYWwwD", "hh", "Z"),
                          ("CCYY-MM-DD", "hh:mm:ss", ""), ("+XCCYY-Www-D", "hh:mm", "+hh:mm"), ("CCYY-DDD", "hh:mm:ss,tt", "Z")):
